@@ -334,6 +334,40 @@ func genStyled(g *vh.Gen) string {
 		g.Pick(">", ">", "/>", " >") + "x</" + tag + ">"
 }
 
+// a linkable element with the URL attribute validURL is applied to, and a URL of some scheme
+func genLink(g *vh.Gen) string {
+	el, attr := "a", "href"
+	switch g.Intn(8) {
+	case 0, 1, 2:
+	case 3, 4:
+		el, attr = "img", "src"
+	case 5:
+		el, attr = g.Pick("blockquote", "q", "del", "ins"), "cite"
+	case 6:
+		el, attr = "area", "href"
+	default:
+		el, attr = g.Pick("a", "img", "td", "div", "video", "source", "link", "base", "form", "input", "iframe", "embed", "object"),
+			g.Pick("href", "src", "cite", "background", "action", "formaction", "poster", "data", "srcset", "longdesc", "usemap", "ping", "xlink:href")
+	}
+	u := jsURL(g)
+	if g.Chance(0.5) {
+		scheme := g.Pick("data", "DATA", "javascript", "vbscript", "ftp", "file", "about", "blob", "tel", "http", "https", "mailto", "cid", "view-source", "jar", "x", "h+t.p-s", "1http", "", " ", "ht tp")
+		rest := g.Pick("text/html;base64,PHNjcmlwdD4=", "text/html,<script>alert(1)</script>", "image/png;base64,AA\nAA", "//example.com/a?b=c&d=e#f", "alert(1)", "//user:pw@host:80/p", "a@b.c", "/", "", "%zz", "[::1]", "//[::1]:8/", "\x00", "a b", "a\tb")
+		u = scheme + g.Pick(":", ":", ":", "&colon;", "&#58;", " :", "") + rest
+	}
+	if g.Chance(0.2) {
+		u = g.Pick(" ", "\t", "\n", "\x01", "&#9;", "&Tab;", "\u00a0", "\u2003") + u
+	}
+	q := g.Pick("\"", "\"", "'", "")
+	if q == "" {
+		u = strings.NewReplacer(" ", "&#32;", ">", "&gt;", "\t", "&#9;", "\n", "&#10;").Replace(u)
+	} else {
+		u = strings.ReplaceAll(u, q, "&#34;")
+	}
+	extra := g.Pick("", "", " rel=\"x\"", " rel=\"nofollow noopener\"", " target=\"_blank\"", " target=_top", " title=\"t\"", " "+attr+"=\"http://second/\"", " crossorigin=x")
+	return "<" + el + g.Pick(" ", " ", "\n", "/") + attr + "=" + q + u + q + extra + g.Pick(">", ">", "/>", " >") + "x</" + el + ">"
+}
+
 var htmlAlphabet = []string{"<", ">", "<", ">", "/", "=", "\"", "'", " ", "script", "style", "p", "a", "on", "click", "href", "javascript:", "&", ";", "#", "x", "!--", "--",
 	"\x00", "\n", "img", "src", "svg", "iframe", "form", "&lt;", "&#60", "alert(1)", "?", "[CDATA[", "]]", "textarea", "title", "color:red", "top:0", "\xff", "`"}
 
@@ -396,8 +430,10 @@ func gen(g *vh.Gen) {
 			s = randOver(g, htmlAlphabet, 24)
 		case i%10 >= 7:
 			s = mutate(g, genHTML(g), "<>\"'=/ &;\x00")
-		case i%10 >= 4:
+		case i%10 >= 5:
 			s = genStyled(g)
+		case i%10 >= 3:
+			s = genLink(g)
 		default:
 			s = genHTML(g)
 		}
